@@ -243,11 +243,30 @@ def threshold_arg(distance, pq):
     double and two distinct rationals with denominators <= 30 differ by
     >= 1/900, far more than an ulp; so `float >= float` and the exact
     `Fraction >= Fraction` agree."""
-    p, q = pq
+    p, q = pq[0], pq[1]
+    nudge = pq[2] if len(pq) > 2 else 0
     if distance == "intersection":
         assert q == 1
-        return p
-    return p / q
+        base = p
+    else:
+        base = p / q
+    if nudge:
+        # the neighbouring double just above / just below: a threshold that no attained
+        # similarity equals but that lies within any tolerance of one
+        import math
+        return math.nextafter(float(base), math.inf if nudge > 0 else -math.inf)
+    return base
+
+
+def threshold_exact(distance, pq):
+    """The exact rational value of the threshold handed to the library.  For a nudged
+    threshold that is the exact value of the neighbouring double: every attained similarity
+    r != p/q is >= 1/900 away, and p/q itself rounds to the double the nudge started from, so
+    `fl(sim) >= s` and `sim >= Fraction(s)` still agree."""
+    arg = threshold_arg(distance, pq)
+    if len(pq) > 2 and pq[2]:
+        return Fraction(arg)
+    return Fraction(pq[0], pq[1])
 
 
 @st.composite
@@ -270,4 +289,6 @@ def thresholds(draw, distance, present):
         v = draw(st.sampled_from(cands))
     else:
         v = draw(generic)
+    if draw(st.integers(0, 5)) == 0:
+        return [v.numerator, v.denominator, draw(st.sampled_from([-1, 1]))]
     return [v.numerator, v.denominator]
